@@ -647,7 +647,7 @@ func (in *Interp) assert(cond *sym.Term, label, msg string, fr *frame) {
 		in.reportViolation("assert", label, msg, fr, m)
 	}
 	if cond.IsFalse() {
-		in.abort("violation", label)
+		return // reported; nothing to assume, later assertions are still checked
 	}
 	in.assume(cond)
 }
